@@ -113,6 +113,13 @@ func newWorld(run *vh.Run, label string, wi int) *world {
 	}
 	deployer := vh.NewAcct(r)
 	accs = append(accs, vh.GenAccount{Addr: deployer.Addr, Coins: vh.NativeCoins(10)})
+	if wi%2 == 1 {
+		// the module account the fixed fee is burnt through holds coins of its own, in two denominations (nothing
+		// stops coins from reaching it: genesis, module transfers, the ERC-20 precompile): a submission still burns
+		// exactly the fixed fee
+		accs = append(accs, vh.GenAccount{Addr: common.BytesToAddress(authtypes.NewModuleAddress(vauthtypes.ModuleName)), NoAuthAccount: true,
+			Coins: vh.NativeCoins(3).Add(sdk.NewCoin(vh.SecondDenom, sdkmath.NewInt(int64(1+r.Intn(1_000_000)))))})
+	}
 	w.c = vh.NewChain(vh.Config{Seed: r.U64(), NumVals: 1, Accounts: accs,
 		MutateGenesis: func(enc params.EncodingConfig, gs chainapp.GenesisState) {
 			// actor i grants actor i+1 generic authorisations for the vesting-creation messages, the
@@ -413,7 +420,17 @@ func (w *world) genScenario(r *vh.RNG) *scenario {
 		}
 		s.steps[2] = func() []*txDesc {
 			route, d := pickRoute(r, 20)
-			return []*txDesc{w.vestTx(r, s.name, "proven-previous-block", a.Addr, route, d)}
+			out := []*txDesc{w.vestTx(r, s.name, "proven-previous-block", a.Addr, route, d)}
+			if r.Bool() { // and somebody proves the address once more (before or after the creation): the proof is final
+				x := w.take(r)
+				rep := w.proofTx(s.name, "proof:repeat-after-refused-creation", x, x, []proofItem{{Account: a.Addr, Sig: makeSig(r, a.Key, vh.Pick(r, []string{"valid", "malleated"})), Kind: "repeat"}}, "top", 0, nil, false)
+				if r.Bool() {
+					out = append(out, rep)
+				} else {
+					out = append([]*txDesc{rep}, out...)
+				}
+			}
+			return out
 		}
 	case k < 41: // proof earlier in the same block
 		s.name = "vest-proven-earlier-same-block"
